@@ -57,6 +57,20 @@ def rule1a(chk, db, cfgname, tab):
                 roots.append((f, p['n']))
     if len(roots) < 6:
         raise AnalysisBroken('C09.1a: MeshGL consumers not found (%d)' % len(roots))
+    # other caller-supplied index carriers: the Smoothness list of Smooth()
+    nsm = 0
+    for f in db.functions.values():
+        if f.get('kind') == 'lambda' or not f.get('blocks'):
+            continue
+        for p in f['params']:
+            t = db.T(f, p['t'])
+            if t.get('r') == 'std::vector' and t.get('ref') and t.get('const') and \
+                    any('Smoothness' in a for a in (t.get('targs') or [])):
+                if not any(r is f for r, _ in roots):
+                    roots.append((f, p['n']))
+                nsm += 1
+    chk.count('c09.1a.smoothness_consumers', nsm)
+    user_fields = {(u['class'], u['field']) for u in tab['user_index_fields']}
     nsink = 0
     # interprocedural sink summary: parameters that flow into an index with no relational test on them
     idx_params = index_params(db)
@@ -86,6 +100,8 @@ def rule1a(chk, db, cfgname, tab):
             return r['n'] in copies and c.get('k') == 'var'
 
         def tainted_read(x):
+            if x.get('k') == 'mem' and (x.get('cls'), x.get('n')) in user_fields:
+                return True
             if not is_subscript(x):
                 return False
             base, _ = sub_parts(x)
@@ -95,6 +111,8 @@ def rule1a(chk, db, cfgname, tab):
         tainted = {}     # var -> set of origin container keys
 
         def read_key(x):
+            if x.get('k') == 'mem':
+                return x['cls'] + '::' + x['n']
             base, _ = sub_parts(x)
             return strip_idx(T.pstr(T.strip(base)))
 
@@ -215,7 +233,10 @@ def rule1a(chk, db, cfgname, tab):
                     sinks = []
                     if is_subscript(ev):
                         base, idx = sub_parts(ev)
-                        if idx is not None:
+                        # std::map / unordered_map operator[] is total: not an index sink
+                        assoc = ev.get('k') == 'call' and T.basename(ev.get('mcls') or '') in (
+                            'std::map', 'std::unordered_map')
+                        if idx is not None and not assoc:
                             sinks.append((T.pstr(base), idx, 'index'))
                     elif ev.get('k') == 'bin' and ev.get('op') in ('+', '-') and \
                             db.T(f, ev).get('ptr') and not db.T(f, ev).get('k') == 'fn':
@@ -572,6 +593,74 @@ def rule4(chk, db, cfgname, tab):
 
 
 # ------------------------------------------------------------------------------------------------
+def rule4b(chk, db, cfgname, tab):
+    chk.rule('C09.4b', 'in the evaluator\'s finalize step every result stored for a Subtract node passes both operand '
+             'lists (positive_children, negative_children) through a status-forwarding reduction, unless the branch is '
+             'taken exactly because that list is empty: an operand\'s error Status cannot be skipped')
+    f = db.one('manifold::CsgOpNode::ToLeafNode')
+    g = C.Cfg(f)
+    dom = g.dominators()
+    sub_blocks = [b['id'] for b in f['blocks'] if b.get('label') and b['label'].get('k') == 'case' and
+                  'Subtract' in T.pstr(b['label'].get('e', {}))]
+    if not sub_blocks:
+        raise AnalysisBroken('C09.4b: Subtract case of the finalize switch not found')
+    # locals that carry a list through a reduction
+    carries = {}
+    for b in f['blocks']:
+        for ev in b['ev']:
+            if ev.get('k') == 'decl':
+                for v in ev['vars']:
+                    if v.get('init') is not None:
+                        s0 = T.pstr(v['init'])
+                        for L in ('positive_children', 'negative_children'):
+                            if L in s0:
+                                carries.setdefault(v['n'], set()).add(L)
+    n = 0
+    for b in f['blocks']:
+        if not any(sb in dom.get(b['id'], ()) for sb in sub_blocks):
+            continue
+        for ev in b['ev']:
+            if not (ev.get('k') == 'call' and ev.get('op') == '=' and ev.get('recv') is not None):
+                continue
+            r = T.strip(ev['recv'])
+            if not (T.pstr(r).lstrip('*').startswith('impl')):
+                continue
+            n += 1
+            rhs = ' '.join(T.pstr(a) for a in ev.get('args', []))
+            used = {L for L in ('positive_children', 'negative_children') if L in rhs}
+            for x in ev.get('args', []):
+                for y in T.walk(x):
+                    if y.get('k') == 'var' and y['n'] in carries:
+                        used |= carries[y['n']]
+            ctrl = controlling_condition(f, b['id'])
+            for L in ('positive_children', 'negative_children'):
+                if L in used and not (L == 'positive_children' and 'positive_children[0]' in rhs and
+                                      'BatchUnion' not in rhs and 'positive' not in
+                                      [y.get('n') for x in ev.get('args', []) for y in T.walk(x)]):
+                    chk.obligation(True, {'line': ev.get('ln'), 'list': L, 'consumed by': rhs[:70]})
+                    continue
+                ok = (L + '.empty()') in ctrl and '||' not in ctrl
+                if L == 'positive_children' and 'positive_children[0]' in rhs:
+                    # the raw first child is stored: legitimate only when nothing is subtracted and the
+                    # positive list was reduced before (a local named from it exists)
+                    ok = ('negative_children.empty()' in ctrl) and '||' not in ctrl
+                    if not ok:
+                        L = 'negative_children'
+                if not ok:
+                    for rv in tab.get('finalize_reviewed', []):
+                        if rv['list'] == L and rv['controlled_by'] in ctrl and '||' not in ctrl:
+                            ok = True
+                            chk.count('c09.4b.reviewed')
+                chk.obligation(ok, {'line': ev.get('ln'), 'list': L, 'not consumed; controlling condition': ctrl[:90]})
+                if not ok:
+                    chk.violation('C09.4b', f, '%s skipped at finalize' % L,
+                                  'a Subtract result is stored without passing %s through a reduction, and the branch is '
+                                  'not taken exactly because that list is empty (controlling condition: %s): an '
+                                  'errored or cancelled operand there is silently dropped' % (L, ctrl[:120] or 'none'),
+                                  line=ev.get('ln'), cfg=cfgname)
+    chk.count('c09.4b.finalize_stores', n)
+
+
 def rule5(chk, db, cfgname, tab):
     chk.rule('C09.5', 'the non-finite argument guards named by the property are present and dominate the use of the '
              'argument-derived data')
@@ -805,6 +894,7 @@ def main(chk, tier):
         rule2(chk, db, cfgname, tab)
         rule3(chk, db, cfgname, tab)
         rule4(chk, db, cfgname, tab)
+        rule4b(chk, db, cfgname, tab)
         rule5(chk, db, cfgname, tab)
     n = len(configs)
     chk.floor('c09.1a.tainted_index_sites', 6 * n)
@@ -813,6 +903,8 @@ def main(chk, tier):
     chk.floor('c09.3.conversions', 4 * n)
     chk.floor('c09.4.deriving_methods', 15 * n)
     chk.floor('c09.5.guards', 5 * n)
+    chk.floor('c09.4b.finalize_stores', 2 * n)
+    chk.floor('c09.1a.smoothness_consumers', 3 * n)
     return chk.finish(
         'Static taint/domination analysis of every function that consumes a caller-supplied MeshGL (and its '
         'lambdas): element values used as indices, divisions by struct fields, array-length validations; '
